@@ -174,6 +174,11 @@ impl Server {
 
     pub fn request(&mut self, method: &'static str, params: Value) -> Request {
         self.next_id += 1;
+        // a method without parameters (shutdown) must not carry `params: null`: the router would
+        // answer "invalid params" without ever calling the handler
+        if params.is_null() {
+            return Request::build(method).id(self.next_id).finish();
+        }
         Request::build(method).id(self.next_id).params(params).finish()
     }
     pub fn notification(method: &'static str, params: Value) -> Request {
